@@ -60,6 +60,11 @@ def dbg(kind, strs):
     return 'X'
 
 
+PROJECTION_STRUCTS = [
+    ('Add, SubAssign, Neg', 'pub struct L<T: Un>(pub T::Num, pub T::Num);'),
+]
+
+
 class C08(Prop):
     pid = 'C08'
     tag = 'operator impls derived from a struct (headers + bodies)'
@@ -175,6 +180,29 @@ class C08(Prop):
             mods.append(l2.Module(r.cid, '\n'.join(src), r))
         nb = 8
         batches = [('c08_%d' % k, mods[k::nb]) for k in range(nb)]
+        # generic structs whose fields reach the parameter through a PROJECTION (`T::Num`, `<T as Un>::Num`), hand-written:
+        # the where-clause has to name the projections, and every form has to work
+        class _Lit:
+            def __init__(self, text):
+                self.text, self.meta = text, dict(nontrivial=True, shape=('tuple', 2))
+            def input_text(self):
+                return self.text
+        for k, (tl, decl) in enumerate(PROJECTION_STRUCTS):
+            for mode in ('A', 'D'):
+                cid = 6 * 10 ** 6 + 2 * k + (mode == 'D')
+                head = ('#[::derive_ex::derive_ex(%s)]\n' % tl) if mode == 'A' else '#[derive(::derive_ex::Ex)]\n#[derive_ex(%s)]\n' % tl
+                mk = lambda p: 'L::<Mt>(M("%s0".to_string()), M("%s1".to_string()))' % (p, p)
+                src = ['pub trait Un { type Num; }', '#[derive(Debug, Clone, PartialEq)] pub struct Mt;', 'impl Un for Mt { type Num = M; }',
+                       '#[derive(Debug, Clone, PartialEq)]\n' + head + decl, 'pub fn run() {',
+                       '    let _ = calls(); let c = %s + %s; println!("%d\\tvv\\t{:?}\\t{}", c, calls());' % (mk('a'), mk('b'), cid),
+                       '    let (a, b) = (%s, %s); let c = &a + &b; println!("%d\\trr\\t{:?}\\t{}", c, calls());' % (mk('a'), mk('b'), cid),
+                       '    let mut a = %s; a -= &%s; println!("%d\\tasg\\t{:?}\\t{}", a, calls());' % (mk('a'), mk('b'), cid),
+                       '    let c = -&%s; println!("%d\\tneg\\t{:?}\\t{}", c, calls()); }' % (mk('a'), cid)]
+                expect[cid] = [('vv', 'L(M("(oa0+ob0)"), M("(oa1+ob1)"))', '2'), ('rr', 'L(M("(ra0+rb0)"), M("(ra1+rb1)"))', '2'),
+                               ('asg', 'L(M("(a0-=rb0)"), M("(a1-=rb1)"))', '2'), ('neg', 'L(M("(-ra0)"), M("(-ra1)"))', '2')]
+                text = ('#[derive_ex(%s)] ' % tl if mode == 'A' else '#[derive(Ex)] #[derive_ex(%s)] ' % tl) + decl
+                mods.append(l2.Module(cid, '\n'.join(src), _Lit(text)))
+        batches.append(('c08lit', [mo for mo in mods if mo.cid >= 6 * 10 ** 6]))
         exes = l2.compile_parallel(batches, prelude=prelude())
         obs = {}
         for name, exe in exes.items():
